@@ -76,6 +76,11 @@ CHECKS = {
          'For each of 30 single-feature projects and each visible object of it, the real driver is run with --privacy HIDDEN:<exact name>, HIDDEN:<pattern matching exactly it> and PRIVATE:<name> (thorough: PRIVATE by pattern, sidebar depth 3, and all pairs of objects hidden together on 12 projects). Hidden: for the object and everything in its contents tree there must be no page, no id/name, no href that resolves to its page or anchor anywhere, no all-documents entry, no lunr document in either search index, no inventory line - and the rest of the site must stay link-consistent. Private: the object is rendered and every member-table row, member-detail block, sidebar item, module-index item and search document for it carries the private marker (extracted with an expat DOM walk).',
          'Trusted: the listing extraction (table.children rows, member divs, sidebar/module-index li, all-documents li); plain-text mentions are allowed.',
          'DESIGN.md section 5, C12'),
+ 'C17': ('fault_enumeration',
+         'exhaustive single-fault enumeration over the bytes and lines of an inventory fed to the real reader, plus round trips of written inventories through pydoctor\'s and Sphinx\' readers',
+         'Robustness: a 6-line valid inventory is mutated in every single way of the fault alphabet - every truncation point of header and compressed body, every byte of header and of the uncompressed payload replaced by each of {NUL, LF, #, space, 0xFF, x}, each header line removed or duplicated, 8 body encodings (raw, gzip, zlib of garbage, empty, trailing junk, double zlib, raw deflate, CRLF), 5 URL shapes, and every payload line of up to 5 (thorough 6) columns over a 7-token column alphabet between two control lines (thorough: 140 588 loads). update() must return; untouched control lines must still resolve; a line that is neither used nor a non-py line must be reported; a wholly unusable file must be reported. Round trip: for every single-feature project x 3 privacy variants and every feature pair, objects.inv written by the real driver is read by SphinxInventory (stub cache) and by Sphinx InventoryFile: names = visible objects reachable through contents, each once, link = base + obj.url.',
+         'Trusted: Sphinx 9.1 as second reader; the reference reading of the line format (type column = the one before the first integer column).',
+         'DESIGN.md section 5, C17'),
 }
 
 
